@@ -23,6 +23,7 @@ CONSTANTS
   RejoinPausedNoAvail = FALSE
   ResetSeparate = FALSE
   JumpToFirstAvailable = FALSE
+  ReportOnlyIfBitSet = FALSE
 SPECIFICATION FairSpec
 PROPERTIES C03_Live
 CHECK_DEADLOCK FALSE
